@@ -426,7 +426,8 @@ pub fn fatal_case(c: &CaseRef, symptom: &str, msg: &str) -> ! {
 	let _g = FATAL_ONCE.lock();
 	let cx = ctx();
 	let key = format!("{}|{}|{}|{}", cx.prop, c.oracle, c.p.class, symptom);
-	let v = Viol { key, msg: format!("{}: {}", c.label, msg) };
+	let label = if c.label.is_empty() { format!("oracle {} params {}", c.oracle, c.p.to_json()) } else { c.label.to_string() };
+	let v = Viol { key, msg: format!("{}: {}", label, msg) };
 	let art = artefact(c, &v);
 	cx.stats.viol_count.fetch_add(1, Ordering::Relaxed);
 	cx.stats.viols.lock().unwrap().push((v, art));
